@@ -31,6 +31,8 @@ const VARIANTS: &[&str] = &[
     "pool_removed",
     "user_changed",
     "mode_changed",
+    "sharding_changed",
+    "routing_changed",
     "invalid_syntax",
     "invalid_default_role",
     "invalid_two_primaries",
@@ -85,6 +87,39 @@ fn looper(addr: String, pool: String, id: String, stop: Arc<AtomicBool>, seed: u
     out
 }
 
+/// Statements whose routing depends on the pool's router settings; returns (probe, answering mock or error).
+fn probes(c: &mut Conn, id: &str, variant: &str) -> Vec<(String, String)> {
+    let mut out = vec![];
+    let n = if variant == "sharding_changed" { 6 } else { 3 };
+    for k in 0..n {
+        let name = if variant == "sharding_changed" {
+            let set = format!("SET SHARDING KEY TO '{}'", k);
+            if let Err((m, e)) = c.query(&set, 5000) {
+                out.push((set, format!("error: {:?} {}", e, summarize(&m))));
+                break;
+            }
+            format!("SET SHARDING KEY TO '{}'; SELECT", k)
+        } else {
+            "SELECT (read, no explicit role)".to_string()
+        };
+        let qid = format!("{}.p{}", id, k);
+        match c.query(&format!("SELECT 1 {}", tag(id, &qid, "rows=1")), 8000) {
+            Ok(m) => {
+                let who = match first_error(&m) {
+                    Some(e) => format!("error: {}", e.1),
+                    None => row_idents(&m).first().map(|x| x.0.clone()).unwrap_or("no row".into()),
+                };
+                out.push((name, who));
+            }
+            Err((m, e)) => {
+                out.push((name, format!("error: {:?} {}", e, summarize(&m))));
+                break;
+            }
+        }
+    }
+    out
+}
+
 fn scenario(seed: u64, variant: &str, trigger: &str, rep: &Report) -> Result<(), String> {
     let mut rng = Rng::new(seed);
     let mut cell = Cell::new();
@@ -111,7 +146,28 @@ fn scenario(seed: u64, variant: &str, trigger: &str, rep: &Report) -> Result<(),
         cfg
     };
     let auto = trigger == "autoreload";
-    let old = mk(&cell, a1, true, false, 3, "transaction", 60, auto);
+    // the two variants that change what the query router is told about the pool (number of shards;
+    // parser-based read/write splitting): `pa` keeps its name and user, a client that stays
+    // connected across the reload must be routed exactly like one that connects afterwards
+    let mk_routing = |cell: &Cell, new: bool| -> Cfg {
+        let mut cfg = mk(cell, a1, true, false, 3, "transaction", 60, auto);
+        if variant == "sharding_changed" {
+            if new {
+                cfg.pools[0].shards.push(crate::pgcat::ShardCfg { id: "1".into(), database: "db1".into(), servers: vec![cell.server(a2, "primary")], mirrors: vec![] });
+            }
+        } else {
+            cfg.pools[0].shards[0].servers.push(cell.server(a2, "replica"));
+            cfg.pools[0].set("default_role", "\"primary\"");
+            if new {
+                cfg.pools[0].set("query_parser_enabled", "true");
+                cfg.pools[0].set("query_parser_read_write_splitting", "true");
+                cfg.pools[0].set("primary_reads_enabled", "false");
+            }
+        }
+        cfg
+    };
+    let router_variant = variant == "sharding_changed" || variant == "routing_changed";
+    let old = if router_variant { mk_routing(&cell, false) } else { mk(&cell, a1, true, false, 3, "transaction", 60, auto) };
     cell.start_pgcat(&old, &StartOpts::default()).map_err(|e| format!("start: {:?}", e))?;
     let port = cell.pg().port;
     let old_toml = old.to_toml(port);
@@ -123,6 +179,7 @@ fn scenario(seed: u64, variant: &str, trigger: &str, rep: &Report) -> Result<(),
         "pool_removed" => mk(&cell, a1, false, false, 3, "transaction", 60, auto).to_toml(port),
         "user_changed" => mk(&cell, a1, true, false, 5, "transaction", 60, auto).to_toml(port),
         "mode_changed" => mk(&cell, a1, true, false, 3, "session", 60, auto).to_toml(port),
+        "sharding_changed" | "routing_changed" => mk_routing(&cell, true).to_toml(port),
         "invalid_syntax" => format!("{}\n[pools.pa\nthis is = not toml", old_toml),
         "invalid_default_role" => mk(&cell, a2, true, false, 3, "transaction", 60, auto).to_toml(port).replacen("default_role = \"any\"", "default_role = \"bogus\"", 1),
         "invalid_two_primaries" => {
@@ -177,6 +234,28 @@ fn scenario(seed: u64, variant: &str, trigger: &str, rep: &Report) -> Result<(),
             Ok(())
         }));
     }
+    // survivor: connected (and served once) before the reload, idle while it happens; its first
+    // transactions afterwards are compared with those of a client that connects after the reload
+    let survivor = if router_variant {
+        let a = addr.clone();
+        let rel = release.clone();
+        let v = variant.to_string();
+        Some(std::thread::spawn(move || -> Result<Vec<(String, String)>, String> {
+            let mut c = Conn::connect(&a, &StartupOpts::new(USER, "pa", PASS).app("sv")).map_err(|e| e.to_string())?;
+            let r = c.query(&format!("SELECT 1 {}", tag("sv", "sv.q0", "rows=1")), 5000).map_err(|e| format!("{:?}", e.1))?;
+            if first_error(&r).is_some() {
+                return Err(format!("survivor's first statement: {}", summarize(&r)));
+            }
+            while rel.load(Ordering::SeqCst) == 0 {
+                sleep_ms(2);
+            }
+            let out = probes(&mut c, "sv", &v);
+            c.terminate();
+            Ok(out)
+        }))
+    } else {
+        None
+    };
     sleep_ms(150);
     let mut adm = cell.pg().admin().map_err(|e| format!("admin: {}", e))?;
     let norm = |rows: Vec<BTreeMap<String, String>>| -> Vec<String> {
@@ -269,6 +348,27 @@ fn scenario(seed: u64, variant: &str, trigger: &str, rep: &Report) -> Result<(),
     for e in straddle_err {
         rep.violation(&format!("C14|transaction_in_progress_broken_by_reload|variant={}|trigger={}", variant, trigger), &format!("a transaction in progress across the reload ({}, {}) was broken: {}", variant, trigger, e), json!({"seed": seed, "log": cell.pg().log_tail(8)}));
     }
+    if let Some(h) = survivor {
+        let sv = h.join().map_err(|_| "survivor panicked".to_string())??;
+        let mut c = Conn::connect(&addr, &StartupOpts::new(USER, "pa", PASS).app("fr")).map_err(|e| format!("fresh client: {}", e))?;
+        let fr = probes(&mut c, "fr", variant);
+        c.terminate();
+        let labels: std::collections::BTreeSet<&String> = fr.iter().map(|x| &x.1).collect();
+        if variant == "sharding_changed" && labels.len() < 2 {
+            rep.inconclusive(&format!("sharding_changed: the fresh client's probes reached only {:?}", labels));
+        }
+        for (a, b) in sv.iter().zip(fr.iter()) {
+            rep.count("survivor_probes_compared_with_fresh_client", 1);
+            if a.1 != b.1 {
+                rep.violation(
+                    &format!("C14|surviving_client_routed_by_old_pool_settings_after_reload|variant={}|trigger={}", variant, trigger),
+                    &format!("after the reload ({}, {}) finished, probe `{}` of a client that was connected before the reload was answered by {}, the same probe of a client connected afterwards by {}", variant, trigger, a.0, a.1, b.1),
+                    json!({"seed": seed, "survivor": sv, "fresh": fr}),
+                );
+                break;
+            }
+        }
+    }
     // a fresh client of the added pool
     let mut pc_obs = vec![];
     if variant == "pool_added" {
@@ -303,6 +403,7 @@ fn scenario(seed: u64, variant: &str, trigger: &str, rep: &Report) -> Result<(),
         }
         match (variant, pool) {
             ("servers_changed", "pa") => Ok("pa.g2"),
+            ("routing_changed", "pa") => Ok("pa.g2"),
             ("pool_removed", "pb") => Err("No pool configured"),
             (_, "pa") => Ok("pa.g1"),
             (_, "pb") => Ok("pb.g1"),
